@@ -92,20 +92,24 @@ def run_cross(w, s1, s2):
     """Conversion to a unit of another type must raise
     IncompatibleUnitsError."""
     Q = w.q
+    from fractions import Fraction
     u1, u2 = w.units[s1], w.units[s2]
-    q = u1.qty_cls(1, u1)
-    for name, f in (('convert', lambda: q.convert(u2)),
-                    ('equiv_amount', lambda: q.equiv_amount(u2))):
-        try:
-            r = f()
-        except Q.IncompatibleUnitsError:
-            continue
-        except Exception as exc:
-            return [(f'C01:cross-type:{name}', f"1 {s1} -> {s2}: raised "
-                     f"{type(exc).__name__} instead of "
-                     "IncompatibleUnitsError")]
-        return [(f'C01:cross-type:{name}',
-                 f"1 {s1} -> {s2}: returned {r!r}")]
+    for a in (1, 0, Fraction(0), O.dec('D:-2.5')):
+        q = u1.qty_cls(a, u1)
+        for name, f in (('convert', lambda: q.convert(u2)),
+                        ('equiv_amount', lambda: q.equiv_amount(u2)),
+                        ('text', lambda: Q.Quantity(f"{q.amount} {s1}",
+                                                    u2))):
+            try:
+                r = f()
+            except Q.IncompatibleUnitsError:
+                continue
+            except Exception as exc:
+                return [(f'C01:cross-type:{name}', f"{a} {s1} -> {s2}: "
+                         f"raised {type(exc).__name__} instead of "
+                         "IncompatibleUnitsError")]
+            return [(f'C01:cross-type:{name}',
+                     f"{a} {s1} -> {s2}: returned {r!r}")]
     return []
 
 
@@ -147,8 +151,8 @@ def part_cross(part):
         for s2 in all_syms:
             if w.um[s1].tname == w.um[s2].tname:
                 continue
-            st.transitions += 2
-            st.evaluations += 2
+            st.transitions += 12
+            st.evaluations += 12
             st.paths += 1
             st.state(('cross', s1, s2), nontrivial=True)
             for sig, msg in run_cross(w, s1, s2):
